@@ -27,7 +27,7 @@ func VerifH_C11_PartialTraces() {
 		level := params.MaxLevelQ()
 		r := params.RingQ().AtLevel(level)
 		half := params.N() >> 1
-		cases := [][2]int{{1, 2}, {1, 3}, {1, 8}, {2, 4}, {2, 3}, {4, 2}, {1, 5}, {3, 2}}
+		cases := [][2]int{{1, 2}, {1, 3}, {1, 8}, {2, 4}, {2, 3}, {4, 2}, {1, 5}, {3, 2}, {1, 6}, {1, 7}}
 		if set == 4 {
 			cases = [][2]int{{1, 3}, {2, 4}}
 		}
@@ -135,4 +135,54 @@ func VerifH_C11_GaloisAlgebraConjugateInvariant() {
 		vAssert(p.ModInvGaloisElement(ga)*ga&(nth-1) == 1, tag+"-ModInvGaloisElement-is-the-inverse")
 	}
 	vCover("C11-ci-reached")
+}
+
+// Rotations into a distinct receiver: the identity element (a rotation by a multiple of the slot count) still fills
+// the receiver, and every variant (plain, hoisted, hoisted-lazy) hands the plaintext metadata of its input - scale,
+// dimensions, batching - to the receiver, whatever the receiver held before.
+func VerifH_C11_RotationReceivers() {
+	vConfig("algebraic-samplers", "1")
+	c := VerifSetup_Ctx(1, vIsAlgebraic())
+	c.Kgen.GenSecretKey(c.Sk)
+	params := c.Params
+	level := params.MaxLevelQ()
+	r := params.RingQ().AtLevel(level)
+	g := params.GaloisElement(3)
+	gks := c.Kgen.GenGaloisKeysNew([]uint64{g}, c.Sk)
+	eval := c.Eval.WithKey(NewMemEvaluationKeySet(nil, gks...))
+	ct := vAtomCiphertext(c, 1, level, "c")
+	ct.Scale = NewScale(5)
+	ct.IsBatched = true
+	ct.LogDimensions.Rows, ct.LogDimensions.Cols = 1, 2
+	used := func(name string) *Ciphertext {
+		o := vAtomCiphertext(c, 1, level, name)
+		o.Scale = NewScale(9)
+		return o
+	}
+	// identity element: rotation index 0 and a multiple of the order of the generator
+	for _, k := range []int{0, params.N() >> 1, -params.N()} {
+		tag := "identity-k" + vItoa(k)
+		vAssert(params.GaloisElement(k) == 1, tag+"-is-the-identity-element")
+		out := used("junk")
+		vAssert(eval.Automorphism(ct, params.GaloisElement(k), out) == nil, tag+"-Automorphism-no-error")
+		for i := range ct.Value {
+			vAssertPolyEq(r, out.Value[i], ct.Value[i], tag+"-receiver-holds-the-input")
+		}
+		vAssert(vMetaEq(out.MetaData, ct.MetaData), tag+"-receiver-takes-the-metadata-of-the-input")
+	}
+	want := vApplyAut(r, vDecrypt(c, c.Dec, ct).Value, g, params.NTTFlag())
+	// plain
+	out := used("junkp")
+	vAssert(eval.Automorphism(ct, g, out) == nil, "plain-Automorphism-no-error")
+	vAssert(vMetaEq(out.MetaData, ct.MetaData), "plain-receiver-takes-the-metadata-of-the-input")
+	vAssertNoiseFree(r, vDecrypt(c, c.Dec, out).Value, want, params.NTTFlag(), 42, "plain-receiver-decrypts-to-sigma-of-the-plaintext")
+	// hoisted
+	levelP := gks[0].LevelP()
+	eval.DecomposeNTT(level, levelP, levelP+1, ct.Value[1], ct.IsNTT, eval.BuffDecompQP)
+	outH := used("junkh")
+	vAssert(eval.AutomorphismHoisted(level, ct, eval.BuffDecompQP, g, outH) == nil, "hoisted-Automorphism-no-error")
+	vAssert(vMetaEq(outH.MetaData, ct.MetaData), "hoisted-receiver-takes-the-metadata-of-the-input")
+	vAssert(outH.MetaData != ct.MetaData, "hoisted-receiver-keeps-its-own-metadata-object")
+	vAssertNoiseFree(r, vDecrypt(c, c.Dec, outH).Value, want, params.NTTFlag(), 42, "hoisted-receiver-decrypts-to-sigma-of-the-plaintext")
+	vCover("C11-rotation-receivers-reached")
 }
